@@ -4,7 +4,9 @@
 package env
 
 import (
+	crand "crypto/rand"
 	"crypto/tls"
+	"errors"
 	"fmt"
 	"io"
 	"log"
@@ -225,6 +227,8 @@ type GWConfig struct {
 	QuerySigningKey string
 	QueryIssuer     string
 	VerifyClientIP  *bool
+	// EntropyFault: crypto/rand.Reader fails while this instance starts
+	EntropyFault bool
 	EnableUserToken bool
 
 	UsernameTemplate string
@@ -391,12 +395,25 @@ func (w *World) Boot(cfg *GWConfig) *Gateway {
 	gwconfig.SimReset()
 	gwmain.SimReset()
 	w.S.Note("boot gateway gen=%d", w.gen)
+	if cfg.EntropyFault {
+		// fault: the system's secure random source is unavailable while the gateway starts
+		old := crand.Reader
+		crand.Reader = failingReader{}
+		defer func() { crand.Reader = old }()
+		w.S.Count("fault.entropy.unavailable_at_boot")
+	}
 	go func() {
 		gwmain.Main()
 		// Main returned without serving (ListenAndServe error path handled by Fatal)
 	}()
 	w.S.Run(func() bool { return g.Exited || (g.Server != nil && w.S.Listening(g.Addr)) }, 20000, 30*time.Second)
 	return g
+}
+
+type failingReader struct{}
+
+func (failingReader) Read(p []byte) (int, error) {
+	return 0, errors.New("getrandom: resource temporarily unavailable")
 }
 
 // Stop closes the instance's server: listeners and connections are closed as a process exit
